@@ -188,6 +188,30 @@ def _receiver_shift_agreement(ctx, index):
                 start = (st.test, norm(n.args[0])[: -len(".args.args")])
     from ..defuse import expand_aliases
 
+    if start is None:
+        # other spellings of "start at -1 for a receiver": a conditional expression or an if/else that chooses between
+        # -1 and 0 on a test of the first positional parameter's name
+        import re as _re
+
+        for n in iter_own(aa.node):
+            test = None
+            if isinstance(n, ast.IfExp) and norm(n.body) == "-1" and norm(n.orelse) == "0":
+                test = n.test
+            elif (
+                isinstance(n, ast.If)
+                and len(n.body) == 1
+                and len(n.orelse) == 1
+                and isinstance(n.body[0], ast.Assign)
+                and isinstance(n.orelse[0], ast.Assign)
+                and norm(n.body[0].targets[0]) == norm(n.orelse[0].targets[0])
+                and norm(n.body[0].value) == "-1"
+                and norm(n.orelse[0].value) == "0"
+            ):
+                test = n.test
+            if test is not None:
+                m_ = _re.search(r"([A-Za-z_][\w.]*)\.args\.args\[0\]\.arg", norm(test))
+                if m_:
+                    start = (test, m_.group(1))
     back = None
     # the correction may sit in visit_FunctionDef or in a method / helper of the same class or module it calls
     cands = [vf] + [
